@@ -78,6 +78,9 @@ def rule_DC(run: Run) -> RuleResult:
             res.add(f"labrea.dataset.Dataset._composed[{tag}]:callback applied outside the overload switch", ok_a, f, fn.lineno,
                     f"calculation = Apply({a.attrs.get('evaluatable')}, {a.attrs.get('func')})", nec)
             applies.add(a.key())
+        else:
+            res.add(f"labrea.dataset.Dataset._composed[{tag}]:callback applied outside the overload switch", False, f, fn.lineno,
+                    f"no Apply(self.overloads, self.callback) in the wrapper chain {names}", nec)
         if i_comp is not None:
             comp = chain[i_comp]
             eff = comp.attrs.get("effect")
